@@ -104,6 +104,10 @@ func C03(c *core.Ctx) error {
 			args = append(args, "-unroll")
 		}
 		r := core.Run(b.b.dir, core.UserEnv(), 60*time.Minute, "", b.b.bin, args...)
+		if core.ResourceFailure(r) {
+			c.Skip("driver run timed out or was killed: %v", args)
+			return
+		}
 		var res c03Result
 		if r.Exit != 0 || json.Unmarshal([]byte(lastLine(r.Stdout)), &res) != nil {
 			c.Report("driver:"+b.v.name+":"+panicSig(r.Stderr), fmt.Sprintf("driver terminated abnormally on mocks generated with %s: %s", b.v.name, firstN(r.Stderr, 900)), map[string]any{"variant": b.v.name, "args": args})
